@@ -27,7 +27,7 @@ def Bal (c : Cfg) (t : Nat) : Prop :=
 
 /-- the stopper is idle or runs the `fixed` source -/
 def SOk (c : Cfg) : Prop :=
-  c.spc = .f2 ∨ c.spc = .f5 ∨ c.spc = .f6 ∨ c.spc = .f7 ∨ c.spc = .done
+  c.spc = .f2 ∨ c.spc = .f5 ∨ c.spc = .f6 ∨ c.spc = .f7 ∨ c.spc = .fr ∨ c.spc = .done
 
 structure Inv (c : Cfg) : Prop where
   bal : ∀ t, Bal c t
@@ -36,7 +36,7 @@ structure Inv (c : Cfg) : Prop where
   unreg : ∀ t, ((c.rs t).pc = .a10 ∨ (c.rs t).pc = .a11) → c.d t = none
   a11 : ∀ t, (c.rs t).pc = .a11 → (c.rs t).i.isSome = true
   sok : SOk c
-  si : (c.spc = .f2 ∨ c.spc = .f5 ∨ c.spc = .done) → c.si = none
+  si : (c.spc = .f2 ∨ c.spc = .f5 ∨ c.spc = .fr ∨ c.spc = .done) → c.si = none
 
 @[simp] theorem b2n_true : b2n true = 1 := rfl
 @[simp] theorem b2n_false : b2n false = 0 := rfl
@@ -128,9 +128,9 @@ theorem inv_stepR {c : Cfg} (t : Nat) (h : Inv c) : Inv (stepR c t) := by
     · simpa [SOk] using sok
     · simpa using si
 
-theorem inv_retS {c : Cfg} (h : Inv c) (hs : c.spc = .f2) : Inv (retS .fixed c) := by
+theorem inv_retS {c : Cfg} (h : Inv c) (hs : c.spc = .fr) : Inv (retS .fixed c) := by
   obtain ⟨bal, unreg, a11, sok, si⟩ := h
-  have hsi := si (Or.inl hs)
+  have hsi := si (Or.inr (Or.inr (Or.inl hs)))
   unfold retS enterS
   split <;>
   · refine ⟨?_, unreg, a11, ?_, ?_⟩
@@ -142,17 +142,13 @@ theorem inv_stepS {c : Cfg} (h : Inv c) : Inv (stepS .fixed c) := by
   have h0 := h
   obtain ⟨bal, unreg, a11, sok, si⟩ := h
   unfold stepS
-  rcases sok with hs | hs | hs | hs | hs <;> simp only [hs]
+  rcases sok with hs | hs | hs | hs | hs | hs <;> simp only [hs]
   · -- f2
     have hsi := si (Or.inl hs)
     by_cases hsn : c.snapOn = true <;> simp only [hsn, if_true, if_false, Bool.false_eq_true]
     all_goals split
-    all_goals first
-      | (apply inv_retS
-         · exact ⟨fun u => by have := bal u; simp_all [Bal, holdS], unreg, a11, by simp [SOk, hs],
-             by simp [hsi]⟩
-         · simp [hs])
-      | exact ⟨fun u => by have := bal u; simp_all [Bal, holdS], unreg, a11, by simp [SOk],
+    all_goals
+      exact ⟨fun u => by have := bal u; simp_all [Bal, holdS], unreg, a11, by simp [SOk],
           by simp [hsi]⟩
   · -- f5
     have hsi := si (Or.inr (Or.inl hs))
@@ -196,6 +192,8 @@ theorem inv_stepS {c : Cfg} (h : Inv c) : Inv (stepS .fixed c) := by
       · intro u; have := bal u; simp_all [Bal, holdS]
       · simp [SOk]
       · simp_all
+  · -- fr
+    exact inv_retS h0 hs
   · exact h0
 
 inductive Reach (m : Mode) (scripts : List (List ROp)) (nstops : Nat) : Cfg → Prop where
